@@ -484,6 +484,18 @@ def do_cube_A(spec, sc, st, jobno):
         # cubes of more than 65536 cells cost seconds per call on the spec side: three design rows in the quick tier
         fact_rows, count_rows = fact_rows[::9][:2], count_rows[::5][:1]
     base = jobno * 131
+    if fam == "M" and N > 100:
+        # cells of exactly 255 / 256 / 257 rows matter only when EVERY row of the cell counts: facts without a missing value,
+        # one and two columns, unweighted and with all-positive weights, both policies - stated explicitly, not left to the
+        # walk through the grids (a reordering of the jobs once moved the all-valid fact away from these cubes)
+        full1 = np.arange(N, dtype=np.float64) + 0.5
+        full2 = np.column_stack([full1, 2.0 * full1 + 1.0])
+        wpos = 0.5 + (np.arange(N) % 7) * 0.25
+        for fact, form in ((full1, "nan1"), (full2, "nan2"), ((full1.copy(), np.ones(N, dtype=bool)), "pair1")):
+            for weights, wform in ((None, "none"), (wpos, "array")):
+                for pol in (False, True):
+                    for agg in FACT_AGGS:
+                        run_case(cb, agg, fact, weights, pol, "int64", st, formats=FORMATS[:2], fact_form=form, weight_form=wform)
     for i, (fi, wi, pi, di, ri) in enumerate(fact_rows):
         idx = base + i
         form, fact = make_fact(sc["fact_forms"][fi], N, idx)
@@ -580,11 +592,11 @@ def many_cell_specs(thorough=False):
 
 
 def jobs(sc):
-    for spec in many_cell_specs(sc.get("thorough", False)):
-        yield do_cube_A, spec
     for spec in cube_specs(sc):
         yield do_cube_A, spec
     for spec in medium_specs():
+        yield do_cube_A, spec
+    for spec in many_cell_specs(sc.get("thorough", False)):
         yield do_cube_A, spec
     for spec in family_B(sc):
         yield do_cube_B, spec
